@@ -105,6 +105,43 @@ def run(ck):
         else:
             ck.traces += 1
     ck.evaluations = nfn + len(pcases)
+    # ---- function values that went through copy() (a second CompiledFunction object describing the same code), and programs the
+    # compiler must reject (were they accepted, their bytecode would have no sound shape: RET without a caller frame, ...)
+    extra = []
+    for body in ("a := 1; b := 2; c := [a, b, p]; return c", "t := 0; for x in [1, 2, 3] { t += x }; return t + p", "for k, v in {a: 1} { p += v }; q := p * 2; return q",
+                 "g := func(y) { z := y + p; return z }; return g(1)", "x := p; if x > 0 { y := x; x = y + 1 }; return x"):
+        extra.append({"src": "f := func(p) { %s }\nh := copy(f)\nr := [f(1), h(1), copy(h)(2)]\nm := copy({k: f})\nr2 := m.k(3)\n" % body, "tag": "copied-function", "valid": True})
+    for src in ("if true { return 1 }", "for { return }", "for x in [1] { if x { return x } }", "x := 1\nif x { return }\nx = 2", "if true { break }", "if true { continue }",
+                "f := func() { for { g := func() { break } } }", "for { f := func() { continue }; break }"):
+        extra.append({"src": src + "\n", "tag": "must-not-compile", "valid": False})
+    for i, e in enumerate(extra):
+        e.update({"id": i + 1, "inputs": [], "mods": []})
+    ed = vlib.run_cases(ck, "dump", extra, nproc=4)
+    edumps = {}
+    for e in extra:
+        r = ed[e["id"]]
+        ck.evaluations += 1
+        if e["valid"] and "bc" in r:
+            edumps[e["id"]] = r["bc"]
+        elif not e["valid"] and "bc" in r:
+            ck.violation("accepted-invalid:" + e["src"].split("\n")[0][:24], "the compiler emitted bytecode for a program it must reject:\n%s" % e["src"], {"program": e})
+        elif r.get("outcome", {}).get("k") == "host_down":
+            ck.violation("compile-panic", "compiler panicked:\n" + e["src"], {"program": e, "result": r})
+    ev = wf_batch(ck, edumps, njobs=2, tag="wfx")
+    for (pid, cidx), v in ev.items():
+        if not v["ok"]:
+            ck.violation("wf:" + v["why"], "function const %d is ill-formed at offset %d: %s\n%s" % (cidx, v["at"], v["why"], extra[pid - 1]["src"]), {"program": extra[pid - 1]})
+    ep = vlib.run_cases(ck, "probe", [{"id": e["id"], "src": e["src"], "inputs": [], "mods": [],
+                                        "heights": [{"cidx": c, "h": v["h"]} for (pid, c), v in ev.items() if pid == e["id"] and v["ok"]]} for e in extra if e["id"] in edumps], nproc=4)
+    for e in extra:
+        r = ep.get(e["id"])
+        if r is None:
+            continue
+        if r.get("mismatches") or r.get("hang") or r.get("died") or r.get("panic") or r.get("err"):
+            ck.violation("height:copied-function", "a function value obtained through copy() does not run on the stack shape of its code: %s\n%s" % (
+                json.dumps(r.get("mismatches") or r.get("err") or r)[:300], e["src"]), {"program": e, "real": r})
+        else:
+            ck.traces += 1
     # functions beyond 64 KiB and pools beyond 255 constants: structure checked by the harness, behaviour by a closed form
     largelib.judge(ck, quick)
     ck.extra.update({"programs": len(progs), "functions": nfn, "vm_steps_checked": steps, "variable_instruction_families": fam})
